@@ -77,11 +77,10 @@ def main():
             path = viol[0].split('replay=')[1].split()[0]
             if os.path.exists(path):
                 res['replay_excerpt'] = open(path).read()[:1500]
-        # regenerate coq/gen from the real /repo again (the check above regenerated it from the patched worktree)
-        import glob
-        for g in sorted(glob.glob(os.path.join(VERIF, 'tools', 'gen', 'gen_*.py'))):
-            sh('/venv/bin/python %s' % g, cwd=VERIF, env=dict(os.environ, GLUE_REPO='/repo', PYTHONPATH='/repo:%s/tools' % VERIF,
-                                                            PYTHONHASHSEED='0', MPLBACKEND='Agg', PYTHONDONTWRITEBYTECODE='1'), timeout=600)
+        # the run above rewrote coq/gen and evidence/<prop>.json from the PATCHED tree: run the check again on the real /repo
+        # so that the generated files and the evidence describe the unchanged tree again
+        rc2, out2 = sh('./check %s --tier quick' % prop, cwd=VERIF, env=dict(os.environ, GLUE_REPO='/repo'), timeout=5400)
+        res['clean_rerun_exit'] = rc2
     finally:
         sh('git -C /repo worktree remove --force %s' % wt)
         shutil.rmtree(wt, ignore_errors=True)
